@@ -226,9 +226,16 @@ class Ctx:
             if goal:
                 self.ex.obligations.append(Obligation(full, "proved", backend="syntactic", info=info))
                 return True
-            # concrete false on a feasible path: definite failure
-            model = self._model()
-            self.ex.obligations.append(Obligation(full, "failed", model=model, backend="syntactic", info=info, path=list(self.trace)))
+            # concrete false: a definite failure iff this path is really feasible (branch feasibility was only
+            # checked against the light path condition, and "unknown" counted as feasible)
+            r = self._check()
+            if r == z3.sat:
+                self.ex.obligations.append(Obligation(full, "failed", model=self.solver.model(), backend="z3", info=info, path=list(self.trace)))
+                return False
+            if r == z3.unsat:
+                self.ex.obligations.append(Obligation(full, "proved", backend="z3", info=f"infeasible path; {info or ''}"))
+                return True
+            self.ex.obligations.append(Obligation(full, "undecided", info=f"path feasibility unknown: {self.solver.reason_unknown()}; {info or ''}"))
             return False
         goal = zbool(goal)
         t0 = time.time()
